@@ -17,15 +17,16 @@ import (
 // Direction-B driver for the time-driven operators (C16): TimedTrace.tla.
 
 type TimedScenario struct {
-	Op      string
-	D       int   // duration, microseconds
-	P2      int   // second parameter (initial delay in us, or buffer size)
-	Gaps    []int // microseconds to wait BEFORE each emission
-	End     string
-	SlowAt  int // 1-based index of an emission whose consumer callback dwells for SlowUs (0 = none)
-	SlowUs  int
-	UnsubAt int // microseconds after subscription (0 = never; sources without emissions always get one)
-	TermGap int // microseconds to wait before the terminal
+	Op       string
+	D        int   // duration, microseconds
+	P2       int   // second parameter (initial delay in us, or buffer size)
+	Gaps     []int // microseconds to wait BEFORE each emission
+	End      string
+	SlowAt   int // 1-based index of an emission whose consumer callback dwells for SlowUs (0 = none)
+	SlowUs   int
+	UnsubAt  int // microseconds after subscription (0 = never; sources without emissions always get one)
+	TermGap  int // microseconds to wait before the terminal
+	CancelAt int // delay / delayeach: the subscription context (parent of every item context) is cancelled this many microseconds after subscription (0 = never)
 }
 
 var timedOps = []string{"delay", "delay", "delayeach", "timeout", "timeout", "interval", "intervalinitial", "timer", "throttle", "sample", "buffertime", "buffertimecount", "samplesource"}
@@ -74,6 +75,10 @@ func GenTimed(r *rand.Rand) TimedScenario {
 	if sc.End == "" || r.Intn(4) == 0 {
 		sc.UnsubAt = 1 + r.Intn(10*sc.D)
 	}
+	if (sc.Op == "delay" || sc.Op == "delayeach") && r.Intn(3) == 0 {
+		// a cancelled context does not make a delayed value arrive early
+		sc.CancelAt = 1 + r.Intn(4*sc.D)
+	}
 	switch sc.Op {
 	case "interval", "intervalinitial", "timer", "samplesource":
 		sc.Gaps = nil
@@ -90,6 +95,11 @@ func RunTimed(lg *rec.Log, sc TimedScenario, seed int64) []rec.Ev {
 	us := func() int { return int(time.Since(start) / time.Microsecond) }
 	lg.Add(rec.Ev{E: "hdr", S: sc.Op, V: sc.D, I: sc.P2})
 	base := context.WithValue(context.Background(), rec.KeySub, true)
+	var cancelBase context.CancelFunc = func() {}
+	if sc.CancelAt > 0 {
+		base, cancelBase = context.WithCancel(base)
+	}
+	defer cancelBase()
 	d := time.Duration(sc.D) * time.Microsecond
 	ctl := &pipe.Ctl{}
 	src := ctl.Observable("ctl-unsafe", nil)
@@ -180,6 +190,15 @@ func RunTimed(lg *rec.Log, sc TimedScenario, seed int64) []rec.Ev {
 		<-subDone
 	}
 	var wg sync.WaitGroup
+	if sc.CancelAt > 0 {
+		wg.Add(1)
+		go func() {
+			defer wg.Done()
+			time.Sleep(time.Duration(sc.CancelAt) * time.Microsecond)
+			lg.Add(rec.Ev{E: "cancel", U: us()})
+			cancelBase()
+		}()
+	}
 	unsubbed := make(chan struct{})
 	if sc.UnsubAt > 0 {
 		wg.Add(1)
